@@ -16,6 +16,11 @@ use std::time::Instant;
 
 pub const VERIF_DIR: &str = "/verif";
 
+// where evidence and replay files are written (overridable for scratch runs, e.g. the mutant matrix)
+pub fn out_dir() -> String {
+    std::env::var("SIRC_VERIF_OUT").unwrap_or_else(|_| VERIF_DIR.to_string())
+}
+
 #[derive(Clone, Copy, Debug, PartialEq, Eq)]
 pub enum Tier {
     Quick,
@@ -446,7 +451,7 @@ pub struct CheckReport {
 }
 
 pub fn write_replay(ctx: &RunCtx, part: &str, input: &Value, v: &Viol) -> String {
-    let dir = format!("{}/replays", VERIF_DIR);
+    let dir = format!("{}/replays", out_dir());
     let _ = std::fs::create_dir_all(&dir);
     let body = json!({
         "property": ctx.id,
@@ -553,7 +558,7 @@ pub fn finish(ctx: &RunCtx, rep: CheckReport, started: Instant) -> i32 {
         "wall_s": started.elapsed().as_secs_f64(),
         "violations": violations,
     });
-    let dir = format!("{}/evidence", VERIF_DIR);
+    let dir = format!("{}/evidence", out_dir());
     let _ = std::fs::create_dir_all(&dir);
     let path = format!("{}/{}.json", dir, ctx.id);
     if let Err(e) = std::fs::write(&path, serde_json::to_string_pretty(&ev).unwrap()) {
